@@ -211,13 +211,14 @@ func (s *store) persistBlobSize(key string, sizeBytes uint64) error {
 }
 
 func (s *store) ensureFreeSpace(space uint64) error {
-	if s.size+space <= s.capacity {
+	// Compare without adding: s.size+space can wrap around for huge requests.
+	if s.size <= s.capacity && space <= s.capacity-s.size {
 		return nil
 	}
 
 	// TODO - benchmark and consider whether async eviction makes more sense.
 	startTime := time.Now()
-	for s.size+space > s.capacity {
+	for s.size > s.capacity || space > s.capacity-s.size {
 		if s.evictQueue.Len() == 0 {
 			s.log.With(
 				"unevictable_bytes", s.size,
